@@ -908,6 +908,35 @@ def laws(rng, tier, ctx):
                             bad = ('law-remerge-future', lines + [merge_line(*hist[jj], names(jj)) for jj in js] + [merge_line(k2, ps) for k2, ps in later] + [read_line(t, what)],
                                    're-merging version(s) %s (their values are the ones visible as of their stamps) changed bi_read(asof=%s, what=%d) after %d further merges: %s -> %s'
                                    % (js, t, what, len(later), ra, rb))
+            # idempotence, fully interleaved (theorem merge_idem_interleaved): new versions and re-merges alternate; at every re-merge the
+            # candidate is tested against the store AT THAT MOMENT (published so far, values NaN or visible as of its stamp); the history
+            # without the re-merges is run beside it and every read compared
+            if bad is None:
+                pub = list(hist)
+                a, b = store, store
+                il_lines = []
+                nre = 0
+                for k2, ps in [(hist[-1][0] + k2, ps) for k2, ps in gen_history(rng, nd, rng.choice([2, 3, 4]), True)]:
+                    for _ in range(rng.choice([0, 1, 1, 2])):
+                        kk, pp = rng.choice(pub)
+                        vis = _read(b, 2 * kk, -1)[0]
+                        if pp and all(i in vis and (v is None or vis[i] == v) for i, v in pp):
+                            b = bi_merge(b, Bi(_series([(date(i), v) for i, v in pp]), stamp(2 * kk)))
+                            il_lines.append(merge_line(kk, pp))
+                            nre += 1
+                    new = lambda: Bi(_series([(date(i), v) for i, v in ps]), stamp(2 * k2))
+                    a, b = bi_merge(a, new()), bi_merge(b, new())
+                    il_lines.append(merge_line(k2, ps))
+                    pub.append((k2, ps))
+                if nre:
+                    for t in read_times(pub):
+                        for what in (-1, 0):
+                            count += 1
+                            ra, rb = _read(a, t, what)[0], _read(b, t, what)[0]
+                            if ra != rb and bad is None:
+                                bad = ('law-remerge-interleaved', lines + il_lines + [read_line(t, what)],
+                                       '%d re-merges of published, visible versions between the later merges changed bi_read(asof=%s, what=%d): %s -> %s'
+                                       % (nre, t, what, ra, rb))
             # a read is a read (review t5): bi_read leaves the store it is given as it was (values, stamps, dtypes, index name), and the
             # same read twice is the same Series including the name of its index - on a store no read has touched yet
             fresh = None
